@@ -232,9 +232,13 @@ def run_line(state, sx):
 def compare(case, i, line, ir, mr):
     if proto.same_reply(ir, mr):
         return None
+    if mr == 'bad-op' or ir == 'bad-op':
+        return ('divergence', 'outside the modelled universe: implementation %s, model %s' % (ir[:200], mr[:200]))
     if not (ir.startswith('ok') and mr.startswith('ok')):
         return 'implementation %s, model %s' % (ir[:200], mr[:200])
     a, b = proto.parse(ir[3:]), proto.parse(mr[3:])
+    if not (isinstance(a, list) and isinstance(b, list) and len(a) == 3 and len(b) == 3):
+        return "malformed reply: implementation %s, model %s" % (ir[:200], mr[:200])
     oa, ob = a[1], b[1]
     same_heap = proto.canon(a[2]) == proto.canon(b[2])
     ea = isinstance(oa, list) and oa and oa[0] == 'E'
@@ -769,6 +773,8 @@ def laws(rng, tier, ctx):
         for li, line in enumerate(S.lines):
             sx = proto.parse(line)
             op = sx[1]
+            if not handles_ok(state, sx):
+                continue      # (the shape shadow mispredicted an earlier outcome: nothing to apply)
             before = [_snap(t) for t in state]
             objs = list(state)
             case = dict(tag='law', lines=S.lines[:li + 1], atomic=False)
